@@ -77,6 +77,9 @@ type sysRemote struct {
 	Call0         func(ctx context.Context, tag int, cb cb0) (int, error)         // a closure that takes only a context
 	KeepAndCall   func(ctx context.Context, tag int, cb cbI) (int, error)         // keeps the callable and invokes it once
 	OpenLink      func(ctx context.Context, tag int) (int, error)                 // the handler opens another link with its request's context
+	// fourth generation
+	IterNilErr    func(ctx context.Context, tag int, cb cbS) (string, error)      // a closure that returns a nil value together with an error
+	EchoLevel     func(ctx context.Context, tag int, l Level) (Level, error)      // a defined string type with its own text encoding
 	EchoNamed     func(ctx context.Context, tag int, c Count, n Name) (Count, error)
 	Two           func(ctx context.Context, tag int, f cbI, g cbI) (string, error)
 	Sub           struct {
@@ -96,6 +99,37 @@ type Small int8
 type cbN = func(ctx context.Context, c Count, n Name, r Ratio, s Small) (Count, error)
 type cbC = func(ctx context.Context, c Count, s Small) (Count, error)
 type cb0 = func(ctx context.Context) (int, error)
+type cbS = func(ctx context.Context, page int) ([]string, error)
+
+// Level is a defined string type that encodes itself as a short code
+type Level string
+
+func (l Level) MarshalText() ([]byte, error) {
+	switch l {
+	case "warn":
+		return []byte("W"), nil
+	case "error":
+		return []byte("E"), nil
+	case "":
+		return []byte("-"), nil
+	}
+	return []byte("?" + string(l)), nil
+}
+func (l *Level) UnmarshalText(b []byte) error {
+	switch s := string(b); {
+	case s == "W":
+		*l = "warn"
+	case s == "E":
+		*l = "error"
+	case s == "-":
+		*l = ""
+	case strings.HasPrefix(s, "?"):
+		*l = Level(s[1:])
+	default:
+		return fmt.Errorf("bad level code %q", s)
+	}
+	return nil
+}
 
 // Status is a plain result value that happens to implement error
 type Status struct {
@@ -530,6 +564,19 @@ func (l *sysLocal) OpenLink(ctx context.Context, tag int) (int, error) {
 		return -1, errors.New("no link opener")
 	}
 	return f(ctx, tag), nil
+}
+func (l *sysLocal) IterNilErr(ctx context.Context, tag int, cb cbS) (string, error) {
+	l.inv(ctx, "IterNilErr", tag, nil)
+	var out []string
+	for page := 0; page < 3; page++ {
+		v, err := cb(ctx, page)
+		out = append(out, fmt.Sprintf("%d:%s/%s", page, canon(v), errText(err)))
+	}
+	return strings.Join(out, ";"), nil
+}
+func (l *sysLocal) EchoLevel(ctx context.Context, tag int, lv Level) (Level, error) {
+	l.inv(ctx, "EchoLevel", tag, string(lv))
+	return lv, nil
 }
 func (l *sysLocal) EchoNamed(ctx context.Context, tag int, c Count, n Name) (Count, error) {
 	l.inv(ctx, "EchoNamed", tag, []any{c, n})
